@@ -621,6 +621,7 @@ class Flow:
                         for c in self.repo.mro(ci):
                             if e.attr in c.class_attrs:
                                 out.update(self.ev(c.module, c.class_attrs[e.attr], {}))
+                                break
             elif k == 'class':
                 ci = self._cls(r[1])
                 if ci is not None:
@@ -911,7 +912,18 @@ class Flow:
                 out[inst] = None
             elif k == 'bound':
                 fi = self._func(v[1])
-                if fi is not None:
+                tname = self._dispatch_idiom(fi, v[2]) if fi is not None else None
+                if tname is not None and e.args:
+                    # receiver.generate(g) is getattr(g, <constant of the receiver's class>)(receiver): bound per receiver class
+                    for gv in self.ev(f, e.args[0], env):
+                        gci = self._cls(gv[1]) if gv[0] == 'inst' else None
+                        target = self.repo.lookup_method(gci, tname) if gci else None
+                        if target is not None and len(target.params) >= 2:
+                            self.called.add(target)
+                            self.add(('L', target.qname, target.params[0]), {gv: None}, 'receiver')
+                            self.add(('L', target.qname, target.params[1]), {('inst', v[2]): None}, 'dispatch through %s' % fi.name)
+                            out.update(self.get(('R', target.qname)))
+                elif fi is not None:
                     out.update(self.bind(fi, e, f, env, self_val=('inst', v[2])))
             elif k == 'ctxmethod':
                 out.update(self._ctx_method(v[1], v[2], e))
@@ -946,6 +958,18 @@ class Flow:
                             self.add(('L', m.qname, m.params[1]), {('ctx', rule): None}, 'ANTLR visit dispatch')
                             out.update(self.get(('R', m.qname)))
         return out
+
+    def _dispatch_idiom(self, fi, cls_qname):
+        """``def m(self, g): return getattr(g, self.ATTR)(self)`` -> the constant ATTR has for the receiver's class"""
+        if fi.cls is None or len(fi.params) != 2:
+            return None
+        rets = [n for n in own_nodes(fi.node) if isinstance(n, ast.Return)]
+        if len(rets) != 1 or not (isinstance(rets[0].value, ast.Call) and isinstance(rets[0].value.func, ast.Call) and
+                                  is_name(rets[0].value.func.func, 'getattr')):
+            return None
+        from .templates import dispatch_target
+        ci = self._cls(cls_qname)
+        return dispatch_target(self.repo, ci, fi.name) if ci is not None else None
 
     def _ev_lambda(self, f, lam, binding, env):
         """evaluate a lambda body with its parameters bound to abstract nodes"""
